@@ -4,10 +4,12 @@ and checks/not_applicable.json (reasons for the unclaimed ones)."""
 import json, os, sys, glob
 V = os.path.dirname(os.path.dirname(os.path.abspath(__file__)))
 props = [json.loads(l)["id"] for l in open(os.path.join(V, "properties.jsonl"))]
+enabled = set(l.strip() for l in open(os.path.join(V, "checks", "ENABLED")) if l.strip() and not l.startswith("#"))
 frag = {}
 for f in sorted(glob.glob(os.path.join(V, "checks", "C*.json"))):
     d = json.load(open(f))
-    frag[d["property_id"]] = d
+    if d["property_id"] in enabled:
+        frag[d["property_id"]] = d
 na_reasons = {}
 p = os.path.join(V, "checks", "not_applicable.json")
 if os.path.exists(p):
